@@ -831,3 +831,172 @@ Theorem c10_disp_trace_ok_model max_streams random ops :
   c10_disp_trace_ok max_streams (rtrace (dstate_new max_streams random) ops) = true /\
   length (rtrace (dstate_new max_streams random) ops) = length ops.
 Proof. apply rtrace_ok; [apply new_inv|apply dstate_new_max]. Qed.
+
+(* ================================================================== cross-contamination, every step of every op list *)
+(* whatever the op: a datagram reaches a connection's inbox only if it came from that
+   connection's peer address and carries that connection's id *)
+Theorem forward_only_own s o s' e k :
+  d_inv s -> dstep s o = (s', e) -> In (EvForward k) e ->
+  exists pushes m, o = DoRunOnce pushes (ArmRecv (k_addr k) (Some m)) /\ dm_conn m = k_conn k /\
+    exists en, In en (d_streams s') /\ se_key en = k /\ se_alive en = true.
+Proof.
+  intros Hinv H Hin.
+  destruct o as [pushes ar|id|id|id|addr token|addr token|addr token|k1];
+    try (quiet H Hs; destruct Hin).
+  destruct (run_once_facts _ _ _ _ _ Hinv H) as (Hf & _).
+  destruct (run_once_decomp _ _ _ _ _ Hinv H) as (s1 & e1 & e3 & Ec & Ea & -> & Hinv1 & Hacc & Hfr & Hinv2 & Hsame).
+  apply in_app_or in Hin. destruct Hin as [Hin1|Hin3].
+  { exfalso. unfold all_accepted in Hacc. rewrite Forall_forall in Hacc. exact (Hacc _ Hin1). }
+  unfold arm_step in Ea. destruct ar as [|send|addr [m|]].
+  - exfalso. destruct (d_next_acc _); [injection Ea as _ <-; destruct Hin3|].
+    destruct (d_chan _); injection Ea as _ <-; destruct Hin3.
+  - exfalso. destruct (d_control _) as [|c r]; [injection Ea as _ <-; destruct Hin3|].
+    exact (on_control_events _ _ _ _ _ Ea _ Hin3).
+  - destruct (on_recv_spec _ _ _ _ _ Hinv2 Ea) as (_ & _ & Hfw & _).
+    destruct (Hfw _ Hin3) as (-> & _). cbn [k_addr k_conn].
+    exists pushes, m. split; [reflexivity|]. split; [reflexivity|].
+    apply Hf. apply in_or_app. right. exact Hin3.
+  - exfalso. injection Ea as _ <-. destruct Hin3 as [Hx|[]]; discriminate.
+Qed.
+
+(* a live connection's table entry (same object, still alive) survives every step except the
+   drop of the accept future that still holds it *)
+Lemma dstep_keeps_live_entry s o s' e en :
+  d_inv s -> dstep s o = (s', e) -> In en (d_streams s) -> se_alive en = true ->
+  (forall id, o <> DoDropAcceptor id) -> In en (d_streams s').
+Proof.
+  intros Hinv H Hin Ha Hne.
+  destruct o as [pushes ar|id|id|id|addr token|addr token|addr token|k1].
+  - destruct (run_once_decomp _ _ _ _ _ Hinv H) as (s1 & e1 & e3 & Ec & Ea & -> & Hinv1 & Hacc & Hfr & Hinv2 & Hsame).
+    destruct Hfr as [_ _ _ B4 _]. destruct Hsame as (P1 & _).
+    destruct (arm_step_keeps _ _ _ _ Hinv2 Ea) as (_ & _ & A3).
+    apply A3; [rewrite P1; apply B4; exact Hin|exact Ha].
+  - cbn [dstep] in H. injection H as <- _. unfold push_acceptor. destruct (_ <? _); exact Hin.
+  - exfalso. exact (Hne id eq_refl).
+  - cbn [dstep] in H. injection H as <- _. exact Hin.
+  - cbn [dstep] in H. injection H as <- _. exact Hin.
+  - cbn [dstep] in H. injection H as <- _. exact Hin.
+  - cbn [dstep] in H. injection H as <- _. destruct (existsb _ _); exact Hin.
+  - cbn [dstep] in H. injection H as <- _. exact Hin.
+Qed.
+
+Definition no_accept_drop (o : rop) : bool :=
+  match o with RopOp (DoDropAcceptor _) => false | _ => true end.
+
+(* ALL RAW OP LISTS: a second, legitimate connection is unaffected by whatever else arrives *)
+Theorem live_connection_unaffected : forall ops s en,
+  d_inv s -> In en (d_streams s) -> se_alive en = true -> forallb no_accept_drop ops = true ->
+  exists s', rrun s ops = Some s' /\ d_inv s' /\ In en (d_streams s').
+Proof.
+  induction ops as [|o r IH]; intros s en Hinv Hin Ha Hops; cbn [rrun]; [eauto|].
+  cbn [forallb] in Hops. apply andb_true_iff in Hops. destruct Hops as [Ho Hr].
+  unfold rstep. destruct (rop_dop_total o) as [d Hd]. rewrite Hd.
+  destruct (dstep s d) as [s1 e] eqn:Ed.
+  destruct (dstep_inv _ _ _ _ Hinv Ed) as [Hinv1 _].
+  apply IH; auto. apply (dstep_keeps_live_entry s d s1 e en Hinv Ed Hin Ha).
+  intros id ->. destruct o as [pushes addr bs|d0]; cbn [rop_dop] in Hd.
+  - destruct (parse_raw bs); discriminate.
+  - injection Hd as ->. discriminate.
+Qed.
+
+(* ================================================================== never wedged *)
+(* after ANY raw op list the dispatcher still serves: the service theorems of C13 need only the
+   invariant.  Two of them, instantiated at every state reached by raw datagrams and other ops. *)
+Theorem hostile_then_connect_served max_streams random ops :
+  exists s, rrun (dstate_new max_streams random) ops = Some s /\
+    forall pushes addr token r s' e,
+      d_control s = CtlConnect addr token :: r -> (length (pending s addr) < 4)%nat ->
+      dstep s (DoRunOnce pushes (ArmControl SynSent)) = (s', e) ->
+      (In (EvConnectErr token) e /\ d_results s' = d_results s ++ [(token, CrTooMany)] /\
+       forall a, pending s' a = pending s a) \/
+      (no_connect_err e /\ d_results s' = d_results s /\
+       exists cid q, In (EvSentSyn addr cid q) e /\
+         In {| cn_token := token; cn_seq := q |} (pending s' addr) /\
+         length (pending s' addr) = S (length (pending s addr)) /\
+         forall a, a <> addr -> pending s' a = pending s a).
+Proof.
+  destruct (rrun_inv ops _ (new_inv max_streams random)) as (s & Hr & Hinv & _).
+  exists s. split; [exact Hr|]. intros. eapply connect_not_starved; eauto.
+Qed.
+
+Theorem hostile_then_accept_served max_streams random ops :
+  exists s, rrun (dstate_new max_streams random) ops = Some s /\
+    forall pushes addr m dead a rest s' e,
+      d_syns s = [] -> dm_type m = ST_SYN ->
+      find_stream s {| k_addr := addr; k_conn := dm_conn m |} = None ->
+      serve_cond s (syn_of addr m) dead a rest ->
+      dstep s (DoRunOnce pushes (ArmRecv addr (Some m))) = (s', e) ->
+      e = [EvAccepted a (syn_key (syn_of addr m))] /\ d_syns s' = [] /\ exists ext, accq s' = rest ++ ext.
+Proof.
+  destruct (rrun_inv ops _ (new_inv max_streams random)) as (s & Hr & Hinv & _).
+  exists s. split; [exact Hr|]. intros. eapply live_acceptor_served_by_next_syn; eauto.
+Qed.
+
+(* ================================================================== witnesses *)
+Definition syn_bytes (c q : Z) : list Z :=
+  [65; 0; c / 256; c mod 256; 0; 0; 0; 0; 0; 0; 0; 0; 0; 0; 0; 0; q / 256; q mod 256; 0; 0].
+Definition data_bytes (c q : Z) : list Z :=
+  [1; 0; c / 256; c mod 256; 0; 0; 0; 0; 0; 0; 0; 0; 0; 0; 0; 0; q / 256; q mod 256; 0; 0; 170].
+
+Example parse_examples :
+  parse_raw (syn_bytes 50 1000) = RpMsg {| dm_type := ST_SYN; dm_conn := 50; dm_seq := 1000; dm_ack := 0 |} /\
+  parse_raw (data_bytes 51 1001) = RpMsg {| dm_type := ST_DATA; dm_conn := 51; dm_seq := 1001; dm_ack := 0 |} /\
+  parse_raw [] = RpGarbage /\
+  parse_raw (removelast (syn_bytes 50 1000)) = RpGarbage /\                     (* 19 bytes *)
+  parse_raw (66 :: tl (syn_bytes 50 1000)) = RpGarbage /\                       (* version 2 *)
+  parse_raw (81 :: tl (syn_bytes 50 1000)) = RpGarbage /\                       (* type 5 *)
+  parse_raw (removelast (data_bytes 51 1001)) = RpGarbage /\                    (* ST_DATA without payload *)
+  parse_raw (syn_bytes 50 1000 ++ [7]) = RpGarbage /\                           (* ST_SYN with payload *)
+  parse_raw (65 :: 1 :: skipn 2 (syn_bytes 50 1000) ++ [0; 200; 1]) = RpGarbage. (* extension longer than the datagram *)
+Proof. vm_compute. repeat split. Qed.
+
+(* the hypotheses are met by reachable states, and every clause of the predicate is exercised:
+   accepted, forwarded, foreign address with the same id (dropped), garbage (dropped) *)
+Example hostile_trace_example :
+  let ops := [RopOp (DoPushAcceptor 1);
+              RopRaw [] 5 (syn_bytes 50 1000);
+              RopRaw [] 5 (data_bytes 51 1001);
+              RopRaw [] 6 (data_bytes 51 1001);
+              RopRaw [] 5 [1; 2; 3]] in
+  map (fun x => (so_fwd (snd x), ob_streams (so_post (snd x)))) (rtrace (dstate_new 128 [7; 100]) ops) =
+  [([], []);
+   ([], [({| k_addr := 5; k_conn := 51 |}, true)]);
+   ([{| k_addr := 5; k_conn := 51 |}], [({| k_addr := 5; k_conn := 51 |}, true)]);
+   ([], [({| k_addr := 5; k_conn := 51 |}, true)]);
+   ([], [({| k_addr := 5; k_conn := 51 |}, true)])].
+Proof. vm_compute. reflexivity. Qed.
+
+(* BOUNDARY 1.  Read literally, "a datagram from (addr, id) changes no table entry other than the
+   one keyed (addr, id)" is false: a SYN with connection id c creates the entry (addr, c + 1)
+   (BEP 29: the acceptor receives on the initiator's id + 1).  The theorem disp_isolation states
+   the true form: no EXISTING entry under another key is touched, and the one entry a SYN may
+   create is keyed (addr, id + 1) and was free. *)
+Theorem isolation_literal_refuted :
+  exists s addr m s' e en,
+    d_inv s /\ on_recv s addr m = (s', e) /\
+    In en (d_streams s') /\ ~ In en (d_streams s) /\
+    se_key en <> {| k_addr := addr; k_conn := dm_conn m |}.
+Proof.
+  exists (drun (dstate_new 128 [7; 100; 200]) [DoPushAcceptor 1]), 5,
+         {| dm_type := ST_SYN; dm_conn := 50; dm_seq := 1000; dm_ack := 0 |}.
+  eexists _, _, {| se_key := {| k_addr := 5; k_conn := 51 |}; se_alive := true; se_id := 0 |}.
+  split; [apply reachable_inv|]. split; [vm_compute; reflexivity|].
+  split; [left; reflexivity|]. split; [intros []|discriminate].
+Qed.
+
+(* BOUNDARY 2.  The SYN backlog is a shared, bounded resource with no expiry: 32 SYNs from one
+   (possibly spoofed) address while no accept() call is waiting fill it, and the next SYN of a
+   legitimate peer is refused with a reset (state unchanged).  Bounded as C13 states; not
+   isolated per peer.  The 32 requests stay queued until accept() calls consume them. *)
+Definition hostile_syns : list rop :=
+  map (fun i => RopRaw [] 9 (syn_bytes (2 * Z.of_nat i) 7)) (seq 0 32).
+
+Theorem backlog_exhaustion_boundary :
+  exists s, rrun (dstate_new 128 [7]) hostile_syns = Some s /\
+    length (d_syns s) = 32%nat /\ d_streams s = [] /\
+    Forall (fun y => sy_addr y = 9) (d_syns s) /\
+    rstep s (RopRaw [] 5 (syn_bytes 50 1000)) = Some (s, [EvSentRst 5 50 1000]).
+Proof.
+  eexists. split; [vm_compute; reflexivity|]. split; [reflexivity|]. split; [reflexivity|].
+  split; [repeat constructor|vm_compute; reflexivity].
+Qed.
